@@ -8,12 +8,18 @@ package main
 import (
 	"bufio"
 	"encoding/json"
+	"errors"
 	"flag"
 	"fmt"
 	"os"
 	"strconv"
 	"sync"
+	"sync/atomic"
 	"time"
+
+	simplefixgo "github.com/b2broker/simplefix-go"
+	"github.com/b2broker/simplefix-go/fix"
+	"github.com/b2broker/simplefix-go/storages/memory"
 
 	fixgen "github.com/b2broker/simplefix-go/tests/fix44"
 	"github.com/b2broker/simplefix-go/utils"
@@ -167,6 +173,18 @@ func heartbeatScenario(role string, n int, pattern string) {
 			time.Sleep(N / 40)
 		}
 		time.Sleep(N*2 + N/2)
+	case "resend-mid": // a message retransmitted on a ResendRequest is outbound traffic like any other
+		sendApp(l, "rm")
+		var first int
+		if m, ok := l.WaitType("Y", time.Second); ok {
+			first = m.Seq
+		}
+		deadline := time.Now().Add(dur)
+		for time.Now().Before(deadline) && first > 0 {
+			time.Sleep(N / 2)
+			_ = l.Send(l.PeerMsg("2", fmt.Sprintf("7=%d\x0116=%d\x01", first, first)))
+			time.Sleep(N + N/4)
+		}
 	case "testrequest-mid": // the Heartbeat that answers a TestRequest is outbound traffic like any other
 		deadline := time.Now().Add(dur)
 		for i := 0; time.Now().Before(deadline); i++ {
@@ -599,6 +617,85 @@ func lateAnswer(role string, variant string) {
 	}
 }
 
+// failingStore is the bundled store whose Save can be made to fail (a full disk, a lost database).
+type failingStore struct {
+	*memory.Storage
+	failing int32
+}
+
+func (s *failingStore) Save(id fix.StorageID, m simplefixgo.SendingMessage, n int) error {
+	if atomic.LoadInt32(&s.failing) == 1 {
+		return errors.New("scripted save failure")
+	}
+	return s.Storage.Save(id, m, n)
+}
+
+// C09 when the probe cannot be sent: the message store fails from the logon on, so the TestRequest
+// of the first silent period never leaves. The peer is silent all the same: after the second period
+// the session disconnects.
+func unsendableProbe(role string) {
+	mode := "silence-unsendable-probe"
+	n := 1
+	tags := []string{"role=" + role, "N=1", mode}
+	st := &failingStore{Storage: memory.NewStorage()}
+	l, err := live.Start(live.Config{Role: role, Hb: n, Buf: 10, Counter: st, Messages: st})
+	if err != nil {
+		verdict("C09", mode, "setup", "fail: "+err.Error(), tags...)
+		return
+	}
+	defer l.Shutdown()
+	if !l.Logon(n) {
+		verdict("C09", mode, "logon", "fail: logon exchange did not complete", tags...)
+		return
+	}
+	atomic.StoreInt32(&st.failing, 1)
+	t0 := time.Now()
+	Tin := 2 * time.Second
+	if !l.WaitEvent("disconnect", 2*Tin+Tin/5+2*time.Second) {
+		verdict("C09", mode, "disconnect", fmt.Sprintf("fail: no disconnect event %s after the last inbound message although the peer stayed silent (the TestRequest could not be stored, hence not sent)", time.Since(t0).Round(time.Millisecond)), tags...)
+		return
+	}
+	select {
+	case <-l.EOF:
+		verdict("C09", mode, "closed", "ok", tags...)
+	case <-time.After(2 * time.Second):
+		verdict("C09", mode, "closed", "fail: the connection was not closed after the disconnect event", tags...)
+	}
+}
+
+// C14 through a real connection: a TestRequest whose TestReqID is longer than any buffer on the
+// way (4 KiB, 64 KiB) is answered by one Heartbeat echoing it, byte for byte.
+func longTestRequest(role string, size int) {
+	mode := "testrequest-long"
+	tags := []string{"role=" + role, fmt.Sprintf("id-bytes=%d", size)}
+	l, err := live.Start(live.Config{Role: role, Hb: 30, Buf: 10})
+	if err != nil {
+		verdict("C14", mode, "setup", "fail: "+err.Error(), tags...)
+		return
+	}
+	defer l.Shutdown()
+	if !l.Logon(30) {
+		verdict("C14", mode, "logon", "fail: logon exchange did not complete", tags...)
+		return
+	}
+	id := make([]byte, size)
+	for i := range id {
+		id[i] = "abcdefghijklmnopqrstuvwxyz0123456789"[(i*7+size)%36]
+	}
+	_ = l.Send(l.PeerMsg("1", "112="+string(id)+"\x01"))
+	hb, ok := l.WaitType("0", 3*time.Second)
+	switch {
+	case !ok:
+		verdict("C14", mode, "answer", fmt.Sprintf("fail: a TestRequest with a TestReqID of %d bytes was not answered by a Heartbeat within 3 s", size), tags...)
+	default:
+		if got, _ := live.Field(hb.Raw, "112"); got != string(id) {
+			verdict("C14", mode, "answer", fmt.Sprintf("fail: the Heartbeat echoes %d bytes, the TestReqID had %d", len(got), size), tags...)
+		} else {
+			verdict("C14", mode, "answer", "ok", tags...)
+		}
+	}
+}
+
 func main() {
 	tier := flag.String("tier", "quick", "quick|thorough")
 	outPath := flag.String("out", "-", "output")
@@ -629,7 +726,7 @@ func main() {
 	for _, n := range ns {
 		for _, role := range []string{"A", "I"} {
 			n, role := n, role
-			for _, p := range []string{"idle", "just-before", "just-after", "burst", "testrequest-mid"} {
+			for _, p := range []string{"idle", "just-before", "just-after", "burst", "testrequest-mid", "resend-mid"} {
 				p := p
 				run(func() { heartbeatScenario(role, n, p) })
 			}
@@ -652,6 +749,13 @@ func main() {
 			run(func() { lateAnswer(role, v) })
 		}
 	}
+	for _, sz := range []int{4092, 9000, 70000} {
+		sz := sz
+		run(func() { longTestRequest("A", sz) })
+		run(func() { longTestRequest("I", sz) })
+	}
+	run(func() { unsendableProbe("A") })
+	run(func() { unsendableProbe("I") })
 	run(func() { resendTimerHeartbeats("A") })
 	run(func() { resendTimerHeartbeats("I") })
 	for _, d := range []time.Duration{0, 50 * time.Millisecond, 500 * time.Millisecond} {
